@@ -1976,6 +1976,12 @@ func (t *Topic) anotherUserSub(sess *Session, asUid, target types.Uid, asChan bo
 		sess.queueOut(ErrPermissionDeniedReply(pkt, now))
 		return nil, errors.New("cannot invite a third user to a P2P topic")
 	}
+	if existingSub && userData.isChan {
+		// An attached channel reader is cached temporarily. The reader's given mode is immutable and
+		// the subscription is stored under the channel name: it cannot be changed (or made an owner) here.
+		sess.queueOut(ErrPermissionDeniedReply(pkt, now))
+		return nil, errors.New("cannot change access mode of a channel reader")
+	}
 	if !existingSub || userData.deleted {
 		// Check if the max number of subscriptions is already reached.
 		if t.cat == types.TopicCatGrp && t.subsCount() >= globals.maxSubscriberCount {
